@@ -926,8 +926,9 @@ fn gen_graph_cfg(rng: &mut Rng, max_nodes: u64, max_edges: u64, container: &str,
         kinds[v] = if !fed && rng.chance(3, 4) { "src" } else { *rng.pick(&["src", "sum", "sum", "pass", "pass"]) };
         c[v] = rng.range(-5, 5);
         nb[v] = rng.range(1, 3);
-        // a node that feeds nobody else may have no buffers at all (a meter): it must still be invoked
-        if rng.chance(1, 3) && !edges.iter().any(|e| e.0 == v && e.1 != v) {
+        // a node may have no buffers at all (a meter at the end of a chain, a clock feeding others): it must
+        // still be invoked, and still be presented as an input on every edge that leaves it
+        if (rng.chance(1, 3) && !edges.iter().any(|e| e.0 == v && e.1 != v)) || rng.chance(1, 8) {
             nb[v] = 0;
         }
         init[v] = rng.range(-9, 9);
